@@ -3,6 +3,7 @@
 package verifhook
 
 import (
+	"context"
 	"fmt"
 	"io"
 	"iter"
@@ -110,3 +111,6 @@ func OsRename(oldpath, newpath string) error {
 	}
 	return os.Rename(oldpath, newpath)
 }
+
+// Publish, if set, replaces (*p2p.P2PNode).Publish: node is the *P2PNode.
+var Publish func(node any, ctx context.Context, topic string, message []byte) error
